@@ -62,9 +62,11 @@ def taskproc(task: Task) -> Result:
     except KeyboardInterrupt:
         task.stop.set()
         raise
-    except RuntimeError:
-        raise
     except (Exception, RecursionError) as e:
+        # RecursionError is a RuntimeError: it must be captured like any other
+        # failure of the task; other RuntimeErrors keep propagating
+        if isinstance(e, RuntimeError) and not isinstance(e, RecursionError):
+            raise
         result.exception = e
         if task.reraise or (
             (raises := task.payload.raises())
